@@ -11,7 +11,9 @@ Local Open Scope Z_scope.
 Definition xNil := 0.  Definition xEOF := 1.  Definition xCancelled := 2.  Definition xWouldBlock := 3.
 Definition xEPERM := 4.  Definition xEBADF := 5.  Definition xReset := 6.  Definition xEPIPE := 7.  Definition xTimeout := 8.
 
-Inductive okind : Type := KSock | KPipeR | KPipeW | KReg | KLsn.    (* KLsn: listener; e_rq counts queued connections *)
+Inductive okind : Type := KSock | KPipeR | KPipeW | KReg | KLsn | KDead.
+  (* KLsn: listener, e_rq counts queued connections; KDead: the descriptor was closed underneath the object and its number now
+     names something that can be neither polled nor read (a directory): every system call on it fails *)
 
 Record opst : Type := mkop { op_cb : Z; op_all : bool; op_len : Z; op_sofar : Z }.
 
@@ -105,6 +107,7 @@ Inductive sysres : Type := SGot (n : Z) | SEof | SWouldBlock | SFail (e : Z).
 
 Definition sys_read (o : obj) (want : Z) : obj * sysres :=
   if o_closed o || (match o_kind o with KPipeW => true | _ => false end) then (o, SFail xEBADF)
+  else if (match o_kind o with KDead => true | _ => false end) then (o, SFail 9)        (* EISDIR *)
   else if (match o_kind o with KLsn => true | _ => false end) then
     (* accept(2): one queued connection per call *)
     if 0 <? e_rq o then
@@ -123,13 +126,13 @@ Definition sys_read (o : obj) (want : Z) : obj * sysres :=
        end.
 
 Definition sys_write (o : obj) (want : Z) : obj * sysres :=
-  if o_closed o || (match o_kind o with KPipeR => true | _ => false end) then (o, SFail xEBADF)
+  if o_closed o || (match o_kind o with KPipeR | KDead => true | _ => false end) then (o, SFail xEBADF)
   else if e_rst o then (o, SFail xReset)
   else if e_wdead o then (o, SFail xEPIPE)
   else (o, SGot want).                   (* buffers are never filled by the scripts *)
 
 (* epoll_ctl(ADD) is refused for regular files *)
-Definition ctl_ok (o : obj) : bool := match o_kind o with KReg => false | _ => true end.
+Definition ctl_ok (o : obj) : bool := match o_kind o with KReg | KDead => false | _ => true end.
 
 (* ---- work list *)
 Inductive item : Type :=
@@ -245,7 +248,8 @@ Definition do_action (s : loop) (a : action) : loop * list item :=
           (* cancelReads, then cancelWrites once the read handler has returned *)
           let s := add_log s (LCancel i false) in
           let r := if o_evR o then
-                     let '(s1, o1) := del_interest s i o false in on_event s1 i o1 false xCancelled
+                     (* cancelReads passes DelRead's error on when the poller's call fails (descriptor unknown to epoll) *)
+                     let '(s1, o1) := del_interest s i o false in on_event s1 i o1 false (if ctl_ok o then xCancelled else xEPERM)
                    else (s, []) in
           (fst r, snd r ++ [ICancelWrites i])
       end
@@ -258,7 +262,10 @@ Definition do_action (s : loop) (a : action) : loop * list item :=
             let '(s1, o1) := del_interest s i o false in
             let '(s2, o2) := del_interest s1 i o1 true in
             let o3 := mkobj (o_kind o2) true false false (o_rd o2) (o_wr o2) false (e_rq o2) (e_reof o2) (e_rst o2) (e_wdead o2) in
-            (add_log (set_obj s2 i o3) (LClose i xNil), [])
+            (* the poller's call fails when an interest has to be removed from a descriptor epoll does not know: Close goes on
+               and reports that error *)
+            let err := if (o_evR o || o_evW o) && negb (ctl_ok o) then xEPERM else xNil in
+            (add_log (set_obj s2 i o3) (LClose i err), [])
       end
   | ASched i rep ms cb =>
       match lookup i (l_tmrs s) with
@@ -296,7 +303,11 @@ Definition has (mask bit : Z) : bool := negb (Z.land mask bit =? 0).
 Definition write_event (s : loop) (i : Z) (err : Z) : loop * list item :=
   match lookup i (l_objs s) with
   | None => (s, [])
-  | Some o => if o_evW o then let '(s1, o1) := del_interest s i o true in on_event s1 i o1 true err else (s, [])
+  | Some o =>
+      if o_evW o then
+        let '(s1, o1) := del_interest s i o true in
+        on_event s1 i o1 true (if (err =? xCancelled) && negb (ctl_ok o) then xEPERM else err)
+      else (s, [])
   end.
 
 (* Poll, one batch entry, against the CURRENT state (earlier handlers of the same batch may have changed it) *)
@@ -373,7 +384,7 @@ Fixpoint exec (fuel : nat) (s : loop) (stack : list item) : loop :=
   end.
 
 (* ---- script operations *)
-Inductive peerop : Type := PData (n : Z) | PClose | PRst | PDrain (n : Z).
+Inductive peerop : Type := PData (n : Z) | PClose | PRst | PDrain (n : Z) | PKill.     (* PKill: descriptor closed underneath *)
 
 Inductive lop : Type :=
 | LObj (i : Z) (k : okind)
@@ -408,6 +419,7 @@ Definition lstep (s0 : loop) (o : lop) : loop :=
                                 end
                     | PRst => mkobj (o_kind o) (o_closed o) (o_evR o) (o_evW o) (o_rd o) (o_wr o) (o_reg o) (e_rq o) (e_reof o) true (e_wdead o)
                     | PDrain _ => o
+                    | PKill => mkobj KDead (o_closed o) (o_evR o) (o_evW o) (o_rd o) (o_wr o) (o_reg o) 0 (e_reof o) (e_rst o) (e_wdead o)
                     end in
           set_obj s i o'
       end
